@@ -6,7 +6,9 @@ class LTLParserErrorListener( ErrorListener ):
         raise RTAMTException (str(line) + ":" + str(column) + ": Syntax ERROR, " + str(msg))
 
     def reportAmbiguity(self, recognizer, dfa, startIndex, stopIndex, exact, ambigAlts, configs):
-        raise RTAMTException("Ambiguity ERROR, " + str(configs))
+        # an ambiguity report is a diagnostic of ANTLR's prediction, not a syntax error: the parser resolves it by
+        # the order of the alternatives (the precedence order of the grammar), e.g. 'a >= b - 1' is a >= (b - 1)
+        pass
 
     def reportAttemptingFullContext(self, recognizer, dfa, startIndex, stopIndex, conflictingAlts, configs):
         pass
